@@ -236,6 +236,10 @@ func (core *JApiCore) checkPathSchemaPropertyUserType(typeName string) error {
 		return fmt.Errorf(`%s (%s)`, jerr.UserTypeNotFound, typeName)
 	}
 
+	if _, ok := ut.Schema.(*catalog.ExchangePseudoSchema); ok { // any or empty notation: no scalar value
+		return fmt.Errorf("%s (%s)", jerr.PathMultiLevelPropertyErr, typeName)
+	}
+
 	rootNode, err := ut.Schema.GetAST()
 	if err != nil {
 		return errors.New(jerr.RuntimeFailure)
